@@ -15,6 +15,7 @@ import Sparrow.Model.Nusselt
 import Sparrow.Model.Pipeline
 import Sparrow.Generated.CheckParse
 import Sparrow.Model.ShapeLife
+import Sparrow.Model.KangPipeline
 open Sparrow Driver
 
 def flat3 (P D S : Nat) (T : Tab3 Float) : Array Float := Id.run do
@@ -622,6 +623,40 @@ def cmdPipeline : P String := do
     return s!"ok {r.P} {r.D} | " ++ pr ++ " | " ++ fmtFloats r.mono ++ " | " ++ fmtFloats e0 ++ " | " ++
       fmtFloats ff ++ " | " ++ fmtFloats (flat3 r.P r.D sN r.etc)
 
+/-- `kangpipe W patch wallPts[12W] wallNormals[3W] absorption[W] scattering[W] att[W] c fs S K power src[3] recv[3]`
+    → `ok P | ff[P*P] | e0[P] | bin0[P] | orders[(K+1)*P*S] | response[S] | directBin directVal | full[S] or -`
+    or `err other` where the implementation raises -/
+def cmdKangPipe : P String := do
+  let w ← nat
+  let ps ← flt
+  let wp ← flts (w * 12); let wn ← flts (w * 3)
+  let ab ← flts w; let sca ← flts w; let atn ← flts w
+  let c ← flt; let fs ← flt
+  let sN ← nat; let k ← nat
+  let power ← flt
+  let sv ← flts 3; let rv ← flts 3
+  let room : KRoom Float := { W := w, wallPts := fun a v => vec3At wp (a * 4 + v), wallNormal := fun a => vec3At wn a,
+                              patchSize := ps, absorption := fun a => ab.getD a 0, scattering := fun a => sca.getD a 0,
+                              att := fun a => atn.getD a 0 }
+  match runKang (1e-5 : Float) 1e-12 0.99 1e-11 room { c := c, fs := fs, S := sN, K := k, power := power } (vec3At sv 0) (vec3At rv 0) with
+  | none => return "err other"
+  | some r =>
+    let mut ff := Array.mkEmpty (r.P * r.P)
+    for i in [0:r.P] do
+      for j in [0:r.P] do
+        ff := ff.push (lookup2 r.ff i j)
+    let mut od := Array.mkEmpty ((k + 1) * r.P * sN)
+    for kk in [0:k+1] do
+      let T := r.orders.getD kk (tabulate3 0 0 0 fun _ _ _ => 0)
+      for j in [0:r.P] do
+        for t in [0:sN] do
+          od := od.push (lookup3 T j 0 t)
+    let full := match r.full with
+      | some a => fmtFloats a
+      | none => "-"
+    return s!"ok {r.P} | " ++ fmtFloats ff ++ " | " ++ fmtFloats r.e0 ++ " | " ++ fmtNats r.bin0 ++ " | " ++
+      fmtFloats od ++ " | " ++ fmtFloats r.response ++ s!" | {r.directBin} " ++ hexOfFloat r.directVal ++ " | " ++ full
+
 def dispatch (cmd : String) : P String :=
   match cmd with
   | "exchange" => cmdExchange
@@ -644,6 +679,7 @@ def dispatch (cmd : String) : P String :=
   | "stokes" => cmdStokes
   | "universal" => cmdUniversal
   | "pipeline" => cmdPipeline
+  | "kangpipe" => cmdKangPipe
   | "nanalog" => cmdNAnalog
   | "surfsamples" => cmdSurfSamples
   | "basicvis" => cmdBasicVis
